@@ -3,9 +3,9 @@ package props
 import (
 	"fmt"
 	"go/token"
+	"go/types"
 	"sort"
 	"strings"
-	"go/types"
 
 	"golang.org/x/tools/go/ssa"
 
